@@ -51,7 +51,7 @@ Definition res_code (o : outcome) : N * N :=
   match o with
   | OCommitted n => (1, n) | OSkipped => (2, 0) | OErrLoad => (3, 0) | OErrTime => (4, 0) | OErrProposer => (5, 0)
   | OErrExec => (6, 0) | OErrValidate => (7, 0) | ONotRunning => (8, 0) | OBootOk => (9, 0) | OBootFailInit => (10, 0)
-  | OBootFailGenesis => (11, 0) | OBootFailCache => (12, 0) | OCrashed => (13, 0) | OStopped => (14, 0)
+  | OBootFailGenesis => (11, 0) | OBootFailCache => (12, 0) | OCrashed => (13, 0) | OStopped => (14, 0) | OTampered => (15, 0)
   end.
 
 Definition prim_shape (p : prim pval) : shape :=
@@ -190,7 +190,5 @@ Definition mismatches := mismatches_from 0.
 
 (* which cases lie inside the domain of which theorem (reported as coverage, not compared) *)
 Definition in_c01_domain (k : pcase) : bool := wf_cfgb (case_cfg k) && crash_free (pc_hist k).
-Definition in_partial_domain (k : pcase) : bool :=
-  wf_cfgb (case_cfg k) && negb (f5_hit (case_cfg k) (pc_hist k)) && negb (f1_hit (case_cfg k) (pc_hist k))
-  && negb (f6_hit (case_cfg k) (pc_hist k)).
+Definition in_c04_domain (k : pcase) : bool := wf_cfgb (case_cfg k) && untampered (pc_hist k).
 Definition count (p : pcase -> bool) (cs : list pcase) : N := N.of_nat (List.length (filter p cs)).
